@@ -318,4 +318,18 @@ theorem collapse_strict_mono (idx : List Nat) (n : Nat) (hasc : Asc idx) (i j : 
   rw [hw] at hs
   omega
 
+/-- **the expand map is strictly increasing**: `GenerateIndexExpandMap` lists the unlisted positions in ascending order
+without repetition. -/
+theorem expand_strict_mono (idx : List Nat) (m : Nat) (hasc : Asc idx) (s s' : Nat) (hss : s < s') (hs' : s' < m) :
+    ∃ v v' : Nat, (expandMap idx m)[s]? = some (v : Int) ∧ (expandMap idx m)[s']? = some (v' : Int) ∧ v < v' := by
+  obtain ⟨v, h1, _, h3⟩ := expand_spec idx m hasc s (by omega)
+  obtain ⟨v', h1', _, h3'⟩ := expand_spec idx m hasc s' hs'
+  refine ⟨v, v', h1, h1', ?_⟩
+  by_cases h : v < v'
+  · exact h
+  · exfalso
+    have hsplit := count_split idx v' v (by omega)
+    have hw := asc_count_window idx hasc v' v
+    omega
+
 end Nifly.Util
